@@ -21,7 +21,11 @@ func VH_C19_mac_footprint() {
 	alg := uint8(vrt.Choose("alg", 0, 3))
 	var k [16]byte
 	copy(k[:], vrt.Bytes("k", 16))
-	m := vrt.Bytes("m", n)
+	// the message is a window of a larger buffer (PDUs of several goroutines carved back to back out of one arena):
+	// the octets behind it belong to somebody else
+	spare := vrt.Choose("spare", 0, 9)
+	buf := vrt.Bytes("m", n+spare)
+	m := buf[:n]
 	vrt.FootprintBegin()
 	// nothing owned: MAC calculation only reads key and message
 	_, _ = NASMacCalculate(alg, k, vrt.U32("count"), vrt.U8("bearer")&31, vrt.U8("dir")&1, m)
